@@ -48,6 +48,7 @@ func BFS[S any](init S, maxDepth int, stateCap int64, key func(*S) Key,
 	for depth := 0; depth < maxDepth && len(level) > 0; depth++ {
 		var next []*Node[S]
 		for _, n := range level {
+			Progress.Add(1)
 			if res.CapHit {
 				break
 			}
@@ -120,6 +121,7 @@ func BFSPar[S any](init S, maxDepth int, stateCap int64, workers int, key func(*
 					lo, hi := c*chunk, min((c+1)*chunk, len(level))
 					for i := lo; i < hi; i++ {
 						n := level[i]
+						Progress.Add(1)
 						expand(w, n, func(s S, op uint16) {
 							trans[c]++
 							k := key(&s)
